@@ -54,21 +54,29 @@ def rule_dispatch(program, ctx):
     kname, vname = [e.id for e in loop.target.elts]
     from ..lib import guard_atoms
 
+    from ..lib import implied
+
     branches = [b for b in ast.walk(loop) if isinstance(b, ast.If)]
     for lit, app in sorted(emitted.items()):
         owner = None
+        owner_body = None
         for b in branches:
-            parts = b.test.values if isinstance(b.test, ast.BoolOp) and isinstance(b.test.op, ast.And) else [b.test]
-            for cmpn in parts:
-                if isinstance(cmpn, ast.Compare) and len(cmpn.ops) == 1 and isinstance(cmpn.ops[0], ast.Eq) and dotted(cmpn.left) == kname and isinstance(cmpn.comparators[0], ast.Constant) and cmpn.comparators[0].value == lit:
-                    owner = b
+            for edge, blk in (("t", b.body), ("f", b.orelse)):
+                if not blk:
+                    continue
+                for clause in implied(b.test, edge):
+                    if len(clause) == 1:
+                        e, pol = clause[0]
+                        if isinstance(e, ast.Compare) and len(e.ops) == 1 and dotted(e.left) == kname and isinstance(e.comparators[0], ast.Constant) and e.comparators[0].value == lit \
+                                and ((isinstance(e.ops[0], ast.Eq) and pol) or (isinstance(e.ops[0], ast.NotEq) and not pol)):
+                            owner, owner_body = b, blk
             if owner:
                 break
         if owner is None:
             ctx.bad(finding_at(P, rid, app, f"the planner emits key \"{lit}\" but no residual branch owns it: it is compiled as a tag condition named \"{lit}\"", text=lit))
             continue
         # conditions under which the owner's body runs, beyond the key test itself
-        atoms = guard_atoms(owner.body[0], stop=loop)
+        atoms = guard_atoms(owner_body[0], stop=loop)
         extra = [e for e, pol in atoms if any(isinstance(n, ast.Name) and n.id == vname for n in ast.walk(e))]
         if extra:
             ctx.bad(finding_at(P, rid, owner, f"branch for \"{lit}\" also requires `{ast.unparse(extra[0])}`: the legal value 0 (the planner emits it whenever the bound `is not None`) "
